@@ -270,15 +270,15 @@ Lemma w_others_wf :
   wf_named w_inst_add /\ no_asg w_inst_add.
 Proof. repeat split; vm. Qed.
 
-(* ---------- what the comparer does not notice ---------- *)
-(* a property only the copy has *)
+(* ---------- properties that only the copy has: rejected since the repair of compare_instances
+   (the former witnesses of the refutation C20_refuted) ---------- *)
 Lemma w_prop_new_diff : nv_diff MPropAdded w_base w_prop_new.
 Proof.
   unfold w_base, w_prop_new. eapply nd_lib. cbn [n_libs]. at_pos (@nil lib) [_].
   eapply ld_def. cbn [l_defs]. at_pos [_; _] (@nil defn).
   eapply dd_inst. cbn [d_insts]. at_pos [_] (@nil inst). eapply id_prop_new. reflexivity.
 Qed.
-Lemma w_prop_new_accepted : compare w_base w_prop_new = true. Proof. vm. Qed.
+Lemma w_prop_new_rejected : cmp_run w_base w_prop_new = Reject. Proof. vm. Qed.
 
 Lemma w_prop_entry_diff : nv_diff MPropAdded w_base w_prop_entry.
 Proof.
@@ -289,12 +289,12 @@ Proof.
   | |- inst_diff _ ?i (mkinst _ _ _ (Some [?d0; ?d1])) => exact (id_prop_entry i [d0] d1 eq_refl)
   end.
 Qed.
-Lemma w_prop_entry_accepted : compare w_base w_prop_entry = true. Proof. vm. Qed.
+Lemma w_prop_entry_rejected : cmp_run w_base w_prop_entry = Reject. Proof. vm. Qed.
 
-(* a property the copy lacks: KeyError, not an AssertionError *)
-Lemma w_prop_dropped_keyerror : cmp_run w_base w_prop_dropped = KeyErr. Proof. vm. Qed.
-(* a renamed element: StopIteration, not an AssertionError *)
-Lemma w_renamed_stopiter : cmp_run w_base w_renamed = StopIter. Proof. vm. Qed.
+(* a property the copy lacks: AssertionError (was KeyError) *)
+Lemma w_prop_dropped_rejected : cmp_run w_base w_prop_dropped = Reject. Proof. vm. Qed.
+(* a renamed element: AssertionError (was StopIteration) *)
+Lemma w_renamed_rejected : cmp_run w_base w_renamed = Reject. Proof. vm. Qed.
 
 (* the reference of an instance named like an assignment changed *)
 Lemma w_asg_wf : wf_named w_asg. Proof. vm. Qed.
